@@ -495,12 +495,30 @@ pub fn run_check(scn: &dyn Scenario, tier: Tier, seed: u64, workers: usize, writ
         let ops: BTreeMap<&String, &u64> = stats.counters.iter().filter(|(k, _)| k.starts_with("op:")).collect();
         let other: BTreeMap<&String, &u64> = stats.counters.iter().filter(|(k, _)| !k.starts_with("op:") && !k.starts_with("probe:") && !k.starts_with("fault:")).collect();
         let mut samples = stats.samples.clone();
-        if samples.is_empty() {
+        {
+            // materialised events of run 0 (setup steps skipped) so that a reader sees what a case looks like
             let p = scn.plan(seed, 0, tier);
-            samples.push(serde_json::json!({"run": 0, "first_steps": p.steps.iter().take(3).collect::<Vec<_>>()}));
-        } else {
-            let p = scn.plan(seed, 0, tier);
-            samples.push(serde_json::json!({"run": 0, "plan_steps": p.steps.len(), "first_step": p.steps.first()}));
+            let interesting: Vec<&Step> = p
+                .steps
+                .iter()
+                .filter(|s| !matches!(s, Step::KeyGen { .. } | Step::KeyPool { .. } | Step::PublicOf { .. } | Step::AsPke { .. } | Step::KeyFromRaw { .. } | Step::KeyInject { .. }))
+                .take(3)
+                .collect();
+            let mut v = serde_json::to_value(&interesting).unwrap_or_default();
+            // keep evidence files small: long scripts are cut
+            if let Some(a) = v.as_array_mut() {
+                for e in a.iter_mut() {
+                    if let Some(sc) = e.pointer_mut("/spec/scripts").and_then(|x| x.as_array_mut()) {
+                        sc.truncate(3);
+                        for t in sc.iter_mut() {
+                            if let Some(ops) = t.as_array_mut() {
+                                ops.truncate(6);
+                            }
+                        }
+                    }
+                }
+            }
+            samples.push(serde_json::json!({"run": 0, "nodes": p.nodes, "plan_steps": p.steps.len(), "first_events_after_setup": v}));
         }
         let mut coverage = serde_json::json!({
             "evaluations": stats.evaluations,
